@@ -32,6 +32,7 @@ type HarnessCfg struct {
 	MaxPaths  int            `json:"maxpaths"`
 	MaxSteps  int            `json:"maxsteps"`
 	Covers    []string       `json:"covers"`
+	Solver    string         `json:"solver"`
 	Note      string         `json:"note"`
 }
 
@@ -299,7 +300,7 @@ func cmdCheck(args []string) {
 		}
 		for _, mo := range mos {
 			E := &Explorer{P: P, Run: &HarnessRun{Name: hc.Harness, Fn: fn, Params: hc.Params, MapOrder: mo, MaxPaths: hc.MaxPaths, MaxSteps: hc.MaxSteps},
-				SolverBin: solverBin, TimeoutMs: timeoutMs, Workers: *workers, Seed: seed, QuickMs: 2000}
+				SolverBin: solverBin, TimeoutMs: timeoutMs, Workers: *workers, Seed: seed, QuickMs: 2000, SolverMode: hc.Solver}
 			if *tier == "thorough" && os.Getenv("VERIF_NO_XCHECK") == "" {
 				E.Transcripts = filepath.Join(work, fmt.Sprintf("tr.%d.%d", os.Getpid(), len(outs)))
 			}
